@@ -216,12 +216,18 @@ class Link:
         self.write_count = 0
         self.opened_at = self.loop.time()
         self.up_step = self.loop.steps
+        self.line_filter = None      # serial line discipline asked for by the client (see Gateway.open)
 
     # peer -> client
     def feed(self, data: bytes):
         if self.dead or self.transport.is_closing():
             return
-        self.pending.append(bytes(data))
+        data = bytes(data)
+        if self.line_filter is not None:
+            data = self.line_filter(data)
+            if not data:
+                return
+        self.pending.append(data)
         self.flush()
 
     def flush(self):
@@ -296,6 +302,7 @@ class Gateway:
         self.session = session
         self.plan = list(connect_plan)
         self.attempts = []           # virtual times of connection attempts (initiation)
+        self.attempt_ends = []       # virtual time at which each attempt was answered (refused / failed / accepted)
         self.attempt_steps = []
         self.links = []
         self.write_actions = {}      # global write index (1-based) -> ("fail", exc) | ("pause", steps)
@@ -320,11 +327,29 @@ class Gateway:
             await asyncio.sleep(10 ** 9)
         if delay:
             await asyncio.sleep(delay)
+        self.attempt_ends.append(loop.time())
         if kind == "refuse":
             raise ConnectionRefusedError(111, "Connect call failed (simulated)")
         if kind == "error":
             raise act[1] if len(act) > 1 and isinstance(act[1], BaseException) else OSError("simulated connect failure")
         link = Link(self, len(self.links))
+        self.open_kwargs = dict(kw)
+        if "baudrate" in kw or "url" in kw:
+            # a serial port: what the operating system does to the byte stream depends on the options the client asked for.
+            #  - software flow control (xonxoff=True): received XON / XOFF bytes (0x11 / 0x13) are consumed by the tty layer
+            #  - fewer than 8 data bits: the high bits never arrive
+            filters = []
+            if kw.get("xonxoff"):
+                filters.append(lambda b: bytes(x for x in b if x not in (0x11, 0x13)))
+            bits = kw.get("bytesize", 8)
+            if isinstance(bits, int) and bits < 8:
+                filters.append(lambda b, m=(1 << bits) - 1: bytes(x & m for x in b))
+            if filters:
+                def line_filter(b, filters=filters):
+                    for f in filters:
+                        b = f(b)
+                    return b
+                link.line_filter = line_filter
         reader = MonReader(self.session, limit=2 ** 16, loop=loop)
         protocol = asyncio.StreamReaderProtocol(reader, loop=loop)
         transport = MemTransport(loop, protocol, link)
